@@ -177,6 +177,11 @@ func KBCorpus() []KBSpec {
 			Progs: [][]KReq{{{Op: OpUpdate, Val: v("a"), Sym: SymCorrect}, {Op: OpCreate, Val: v("c")}}, {{Op: OpDelete, Sym: SymCorrect}}},
 			Pick:  FixedPick([][2]int{{0, 0}, {1, 0}, {1, 0}, {1, 0}, {0, 0}, {0, 0}})},
 	)
+	cs = append(cs,
+		KBSpec{Note: "async rewrite re-stamps a tombstone (uncertain delete) with a revision above a waiting creator's: the create is refused although the key was deleted all the time",
+			Init: []int{InitLive}, Fix: kbFix, Rewrite: true, RewriteDelete: true,
+			Progs: [][]KReq{{{Op: OpCreate, Key: 0, Val: v("cr")}}},
+			Pick:  FixedPick([][2]int{{0, 0}, {1, 0}, {1, 0}, {1, 0}, {0, 0}})})
 	return append(cs, []KBSpec{
 		{Note: "two creators on one absent key, commits interleaved",
 			Init: []int{InitNever}, Fix: kbFix,
